@@ -457,18 +457,42 @@ func execFedcheck(op string, args []string) (res string) {
 		return "err:other"
 	case "atstate":
 		i, _ := strconv.Atoi(args[2])
-		err := gmsl.VerifyAuthRulesAtState(ctx, env.stateProvider(args[4]), env.pool[i], args[3] == "1", StdQuerier)
-		switch {
-		case err == nil:
-			return "ok" + env.showLog()
-		case strings.Contains(err.Error(), "cannot fetch state IDs"):
-			return "err:ids" + env.showLog()
-		case strings.Contains(err.Error(), "cannot get state at event"):
-			return "err:state" + env.showLog()
-		case strings.Contains(err.Error(), "is not allowed at state"):
-			return "err:auth" + env.showLog()
+		once := func() string {
+			env.log, env.calls = nil, 0
+			err := gmsl.VerifyAuthRulesAtState(ctx, env.stateProvider(args[4]), env.pool[i], args[3] == "1", StdQuerier)
+			switch {
+			case err == nil:
+				return "ok" + env.showLog()
+			case strings.Contains(err.Error(), "cannot fetch state IDs"):
+				return "err:ids" + env.showLog()
+			case strings.Contains(err.Error(), "cannot get state at event"):
+				return "err:state" + env.showLog()
+			case strings.Contains(err.Error(), "is not allowed at state"):
+				return "err:auth" + env.showLog()
+			}
+			return "err:other"
 		}
-		return "err:other"
+		// "the same on every evaluation": the call is repeated inside the op and has to give ONE answer.  The state the
+		// provider returns is a Go map (iterated in a random order); when it holds several events for one
+		// (type, state_key) the call is repeated often enough for an order-dependent answer to show
+		// (`unstable:<answers>`: never a model or specification outcome).
+		repeats := 3
+		if fcStateHasSlotClash(env, args[4]) {
+			repeats = 96
+		}
+		seen := map[string]bool{}
+		var answers []string
+		for k := 0; k < repeats; k++ {
+			if a := once(); !seen[a] {
+				seen[a] = true
+				answers = append(answers, a)
+			}
+		}
+		if len(answers) == 1 {
+			return answers[0]
+		}
+		sort.Strings(answers)
+		return "unstable:" + strings.Join(answers, "/")
 	case "load":
 		raws, err := env.raws(args[2])
 		if err != nil {
@@ -1665,6 +1689,34 @@ func (rm *fcRoom) stateEntry(r *Rng, e *Ev, mode string) string {
 				break
 			}
 		}
+	case "dupslot":
+		// the answer of a remote /state request is not a state: next to events of the true state it holds superseded
+		// events of the same (type, state_key) - the previous power levels, the membership before the ban, ...
+		slots, inState := map[[2]string]bool{}, map[*Ev]bool{}
+		for _, x := range st {
+			if sk := x.PDU.StateKey(); sk != nil {
+				slots[[2]string{x.PDU.Type(), *sk}] = true
+			}
+			inState[x] = true
+		}
+		var cands []int
+		for _, h := range rm.pool {
+			if sk := h.PDU.StateKey(); sk != nil && !inState[h] && h != e && slots[[2]string{h.PDU.Type(), *sk}] {
+				cands = append(cands, rm.idx[h])
+			}
+		}
+		if len(cands) > 0 {
+			for i := len(cands) - 1; i > 0; i-- {
+				j := r.Intn(i + 1)
+				cands[i], cands[j] = cands[j], cands[i]
+			}
+			k := 1 + r.Intn(len(cands))
+			if r.Bool() {
+				stl = append(stl, cands[:k]...)
+			} else {
+				stl = append(append([]int{}, cands[:k]...), stl...)
+			}
+		}
 	case "iderr":
 		return strconv.Itoa(rm.idx[e]) + ";e;" + fcIdxList(stl)
 	case "sterr":
@@ -1739,7 +1791,32 @@ func fcOmitScenario(r *Rng, ver, kind string) (*fcRoom, *Ev) {
 	return rm, mk("m.room.message", u, nil, map[string]interface{}{"body": "hi"}, nil)
 }
 
-var fcStateModes = []string{"ok", "ok", "ok", "ok", "short", "empty", "wrong", "nonstate", "iderr", "sterr"}
+var fcStateModes = []string{"ok", "ok", "ok", "ok", "short", "empty", "wrong", "nonstate", "iderr", "sterr", "dupslot"}
+
+// fcStateHasSlotClash: does some scripted state (third field of a StateProvider entry) hold two events for one
+// (type, state_key)?
+func fcStateHasSlotClash(env *fcEnv, sprov string) bool {
+	for _, ent := range splitList(sprov, "|") {
+		p := strings.Split(ent, ";")
+		if len(p) != 3 || p[2] == "e" {
+			continue
+		}
+		slots := map[[2]string]bool{}
+		for _, i := range natList(p[2]) {
+			if i < 0 || i >= len(env.pool) {
+				continue
+			}
+			if sk := env.pool[i].StateKey(); sk != nil {
+				t := [2]string{env.pool[i].Type(), *sk}
+				if slots[t] {
+					return true
+				}
+				slots[t] = true
+			}
+		}
+	}
+	return false
+}
 
 func genFedcheckMore(o *Out, tier string, r *Rng) {
 	nChain, nAt, nLoad, nBf := 200, 200, 160, 120
@@ -1893,6 +1970,25 @@ func genFedcheckMore(o *Out, tier string, r *Rng) {
 					if round == 0 && ver == "10" && allow == "0" {
 						o.Sample("atstate(omit-" + kind + ") " + ver + " -> " + res)
 					}
+				}
+			}
+		}
+	}
+	// ---- a returned "state" with several events for one (type, state_key): the superseded event next to the current one
+	// (the power levels before events_default / state_default were raised to 50, the membership before the ban, an older
+	// member event of the sender).  One answer on every evaluation, and that answer is a refusal: such a set is no state.
+	for round := 0; round < omitRounds; round++ {
+		for _, ver := range fcVersions {
+			for _, kind := range fcOmitKinds {
+				rm, e := fcOmitScenario(r, ver, kind)
+				if rm == nil || e == nil {
+					o.Count("atstate.dupslot.gen-failed")
+					continue
+				}
+				ent := rm.stateEntry(r, e, "dupslot")
+				for _, allow := range []string{"0", "1"} {
+					res := o.Do("atstate", ver, rm.poolArg(), strconv.Itoa(rm.idx[e]), allow, ent)
+					o.Count("atstate.dupslot." + kind + ".allow" + allow + "." + strings.SplitN(res, "|", 2)[0])
 				}
 			}
 		}
